@@ -1201,6 +1201,13 @@ def variantPayload : Nat → Cfg → List (String × VTy) → List Char → Loc 
     | some (_, vt) =>
       let name := String.ofList vname
       let expectMapEnd (c : Cur) (v : Val) : R Val :=
+        if tagged then
+          -- `expect_payload_consumed`: the replayed payload must be used up
+          match c.peek with
+          | .err e c => .err e c
+          | .ok none c => .ok v c
+          | .ok (some ev) c => .err ⟨"Unexpected", ev.loc, 0⟩ c
+        else
         if !mapMode then .ok v c else
         match c.next with
         | .err e c => .err e c
@@ -1226,6 +1233,12 @@ def variantPayload : Nat → Cfg → List (String × VTy) → List Char → Loc 
           | .ok (some other) c => .err ⟨"UnexpectedValueForUnitEnumVariant", other.loc, 0⟩ c
         else .ok (.variant name .unit) c
       | .newtype t =>
+        if !mapMode && !tagged then
+          -- scalar form `Variant`: the payload is read from an empty replay source, never from the stream
+          match deser fuel cfg t false false (Cur.replay [] 0 none) with
+          | .err e _ => .err e c
+          | .ok v _ => .ok (.variant name v) c
+        else
         match c.peek with
         | .err e c => .err e c
         | .ok pk c =>
@@ -1237,10 +1250,20 @@ def variantPayload : Nat → Cfg → List (String × VTy) → List Char → Loc 
           | .err e c => .err (if tagged then e else attachAlias e ref defined) c
           | .ok v c => expectMapEnd c (.variant name v)
       | .tuple ts =>
+        if !mapMode && !tagged then
+          match deserSeqLike fuel cfg (.inr ts) (Cur.replay [] 0 none) with
+          | .err e _ => .err e c
+          | .ok v _ => .ok (.variant name v) c
+        else
         match deserSeqLike fuel cfg (.inr ts) c with
         | .err e c => .err e c
         | .ok v c => expectMapEnd c (.variant name v)
       | .struct fields =>
+        if !mapMode && !tagged then
+          match deserMapLike fuel cfg (.inr (fields, false)) (Cur.replay [] 0 none) with
+          | .err e _ => .err e c
+          | .ok v _ => .ok (.variant name v) c
+        else
         match deserMapLike fuel cfg (.inr (fields, false)) c with
         | .err e c => .err e c
         | .ok v c => expectMapEnd c (.variant name v)
